@@ -1,0 +1,179 @@
+//go:build verif
+
+// Contracts for the deductive verifier under /verif (govc). Comment-only file: it adds no code and is
+// compiled only with the build tag "verif".
+// The ordered-map blocks are instantiated from /verif/tools/ordered_map.contracts.tmpl.
+
+package ischema
+
+// ---- Constraints: insertion-ordered dictionary (C19) -------------------------------------------------
+// Abstract view: the key sequence m.order, the finite map m.data, and the ghost position function
+// m.$pos (a witness that order is a duplicate-free enumeration of the keys of data).
+
+//@ ghostfield Constraints.$pos (Array Int Int)
+
+//@ pred wfConstraints(m *Constraints) := m != nil
+//@     && (m.data == nil ==> len(m.order) == 0)
+//@     && len(m.data) == len(m.order)
+//@     && (forall k constraint.Type :: {m.$pos[k]} k in m.data ==> 0 <= m.$pos[k] && m.$pos[k] < len(m.order) && m.order[m.$pos[k]] == k)
+//@     && (forall p :: {elems(m.order)[p]} m.order.off <= p && p < m.order.off + len(m.order) ==> elems(m.order)[p] in m.data && m.$pos[elems(m.order)[p]] == p - m.order.off)
+
+//@ func (*Constraints).has
+//@   property C19
+//@   requires m != nil
+//@   ensures result == (k in m.data)
+//@   no_panic
+
+//@ func (*Constraints).Has
+//@   property C19
+//@   requires m != nil
+//@   ensures result == (k in m.data)
+//@   no_panic
+
+//@ func (*Constraints).Len
+//@   property C19
+//@   requires wfConstraints(m)
+//@   ensures result == len(m.order)
+//@   no_panic
+
+//@ func (*Constraints).Get
+//@   property C19
+//@   requires m != nil
+//@   ensures result1 == (k in m.data)
+//@   ensures result1 ==> result0 == m.data[k]
+//@   no_panic
+
+//@ func (*Constraints).GetValue
+//@   property C19
+//@   requires m != nil
+//@   ensures (k in m.data) ==> result == m.data[k]
+//@   no_panic
+
+//@ func (*Constraints).Set
+//@   property C19
+//@   requires wfConstraints(m)
+//@   modifies m.data, m.order, m.$pos, mapof(m.data), elems(m.order)
+//@   ensures wfConstraints(m)
+//@   ensures k in m.data && m.data[k] == v
+//@   ensures forall k2 constraint.Type :: k2 != k ==> ((k2 in m.data) == old(k2 in m.data) && ((k2 in m.data) ==> m.data[k2] == old(m.data[k2])))
+//@   ensures old(k in m.data) ==> len(m.order) == old(len(m.order))
+//@   ensures !old(k in m.data) ==> len(m.order) == old(len(m.order)) + 1 && m.order[len(m.order)-1] == k
+//@   ensures forall i :: 0 <= i && i < old(len(m.order)) ==> m.order[i] == old(m.order[i])
+//@   no_panic
+//@   at return set m.$pos = old(k in m.data) ? m.$pos : store(m.$pos, k, old(len(m.order)))
+
+//@ func (*Constraints).delete
+//@   property C19
+//@   requires wfConstraints(m)
+//@   modifies m.order, m.$pos, mapof(m.data), elems(m.order)
+//@   ensures wfConstraints(m)
+//@   ensures !(k in m.data)
+//@   ensures forall k2 constraint.Type :: k2 != k ==> ((k2 in m.data) == old(k2 in m.data) && ((k2 in m.data) ==> m.data[k2] == old(m.data[k2])))
+//@   ensures !old(k in m.data) ==> len(m.order) == old(len(m.order)) && (forall i :: 0 <= i && i < len(m.order) ==> m.order[i] == old(m.order[i]))
+//@   ensures old(k in m.data) ==> len(m.order) == old(len(m.order)) - 1
+//@   ensures old(k in m.data) ==> (forall i :: 0 <= i && i < old(m.$pos[k]) ==> m.order[i] == old(m.order[i]))
+//@   ensures old(k in m.data) ==> (forall i :: old(m.$pos[k]) <= i && i < len(m.order) ==> m.order[i] == old(m.order[i+1]))
+//@   ensures m.order.arr == old(m.order.arr) && m.order.off == old(m.order.off) && m.data == old(m.data)
+//@   ensures forall k2 constraint.Type :: {m.$pos[k2]} m.$pos[k2] == (old(k in m.data) && old(m.$pos[k2]) > old(m.$pos[k]) ? old(m.$pos[k2]) - 1 : old(m.$pos[k2]))
+//@   no_panic
+//@   loop#1 invariant -1 <= rangeindex && rangeindex < len(m.order) && m.order == old(m.order) && old(k in m.data)
+//@   loop#1 invariant forall j :: 0 <= j && j <= rangeindex ==> m.order[j] != k
+//@   loop#1 invariant elems(m.order) == old(elems(m.order)) && m.$pos == old(m.$pos) && m.data == old(m.data)
+//@   loop#1 invariant !(k in m.data) && len(m.data) == old(len(m.data)) - 1
+//@   loop#1 invariant forall k2 constraint.Type :: k2 != k ==> ((k2 in m.data) == old(k2 in m.data) && ((k2 in m.data) ==> m.data[k2] == old(m.data[k2])))
+//@   loop#1 decreases len(m.order) - rangeindex
+//@   at return#end setdef m.$pos p :: forall k2 constraint.Type :: p[k2] == (old(m.$pos)[k2] > old(m.$pos)[k] ? old(m.$pos)[k2] - 1 : old(m.$pos)[k2])
+
+//@ func (*Constraints).Delete
+//@   property C19
+//@   requires wfConstraints(m)
+//@   modifies m.order, m.$pos, mapof(m.data), elems(m.order)
+//@   ensures wfConstraints(m)
+//@   ensures !(k in m.data)
+//@   ensures forall k2 constraint.Type :: k2 != k ==> ((k2 in m.data) == old(k2 in m.data) && ((k2 in m.data) ==> m.data[k2] == old(m.data[k2])))
+//@   ensures !old(k in m.data) ==> len(m.order) == old(len(m.order)) && (forall i :: 0 <= i && i < len(m.order) ==> m.order[i] == old(m.order[i]))
+//@   ensures old(k in m.data) ==> len(m.order) == old(len(m.order)) - 1
+//@   ensures old(k in m.data) ==> (forall i :: 0 <= i && i < old(m.$pos[k]) ==> m.order[i] == old(m.order[i]))
+//@   ensures old(k in m.data) ==> (forall i :: old(m.$pos[k]) <= i && i < len(m.order) ==> m.order[i] == old(m.order[i+1]))
+//@   ensures m.order.arr == old(m.order.arr) && m.order.off == old(m.order.off) && m.data == old(m.data)
+//@   ensures forall k2 constraint.Type :: {m.$pos[k2]} m.$pos[k2] == (old(k in m.data) && old(m.$pos[k2]) > old(m.$pos[k]) ? old(m.$pos[k2]) - 1 : old(m.$pos[k2]))
+//@   no_panic
+
+//@ func (*Constraints).Update
+//@   property C19
+//@   requires wfConstraints(m)
+//@   callback fn pure
+//@   modifies mapof(m.data)
+//@   ensures wfConstraints(m)
+//@   ensures m.order == old(m.order) && elems(m.order) == old(elems(m.order)) && m.data == old(m.data)
+//@   ensures forall k2 constraint.Type :: (k2 in m.data) == old(k2 in m.data)
+//@   ensures forall k2 constraint.Type :: k2 != k && (k2 in m.data) ==> m.data[k2] == old(m.data[k2])
+//@   ensures old(k in m.data) ==> m.data[k] == call(fn, old(m.data[k]))
+//@   no_panic
+
+//@ func (*Constraints).Filter
+//@   property C19
+//@   requires wfConstraints(m)
+//@   callback fn pure
+//@   modifies m.order, m.$pos, mapof(m.data), elems(m.order)
+//@   ensures wfConstraints(m)
+//@   ensures forall k constraint.Type :: (k in m.data) == (old(k in m.data) && call(fn, k, old(m.data[k])))
+//@   ensures forall k constraint.Type :: (k in m.data) ==> m.data[k] == old(m.data[k])
+//@   ensures forall k1 constraint.Type, k2 constraint.Type :: (k1 in m.data) && (k2 in m.data) ==> ((m.$pos[k1] < m.$pos[k2]) == (old(m.$pos[k1]) < old(m.$pos[k2])))
+//@   no_panic
+//@   loop#1 invariant wfConstraints(m) && -1 <= rangeindex && rangeindex < len(order) && len(order) == old(len(m.order))
+//@   loop#1 invariant order.arr != m.order.arr && fresh(order) && m.order.arr == old(m.order.arr) && m.data == old(m.data)
+//@   loop#1 invariant forall j :: 0 <= j && j < len(order) ==> order[j] == old(m.order[j])
+//@   loop#1 invariant forall k constraint.Type :: (k in m.data) == (old(k in m.data) && (old(m.$pos[k]) > rangeindex || call(fn, k, old(m.data[k]))))
+//@   loop#1 invariant forall k constraint.Type :: (k in m.data) ==> m.data[k] == old(m.data[k])
+//@   loop#1 invariant forall k1 constraint.Type, k2 constraint.Type :: (k1 in m.data) && (k2 in m.data) ==> ((m.$pos[k1] < m.$pos[k2]) == (old(m.$pos[k1]) < old(m.$pos[k2])))
+//@   loop#1 decreases len(order) - rangeindex
+
+//@ func (*Constraints).Find
+//@   property C19
+//@   requires wfConstraints(m)
+//@   callback fn pure
+//@   ensures result1 ==> (result0.Key in m.data) && result0.Value == m.data[result0.Key] && call(fn, result0.Key, m.data[result0.Key])
+//@   ensures result1 ==> (forall j :: 0 <= j && j < m.$pos[result0.Key] ==> !call(fn, m.order[j], m.data[m.order[j]]))
+//@   ensures !result1 ==> (forall j :: 0 <= j && j < len(m.order) ==> !call(fn, m.order[j], m.data[m.order[j]]))
+//@   no_panic
+//@   loop#1 invariant -1 <= rangeindex && rangeindex < len(m.order)
+//@   loop#1 invariant forall j :: 0 <= j && j <= rangeindex ==> !call(fn, m.order[j], m.data[m.order[j]])
+//@   loop#1 decreases len(m.order) - rangeindex
+
+//@ func (*Constraints).Each
+//@   property C19
+//@   requires wfConstraints(m)
+//@   callback fn pure
+//@   ensures result == nil ==> (forall j :: 0 <= j && j < len(m.order) ==> call(fn, m.order[j], m.data[m.order[j]]) == nil)
+//@   ensures result != nil ==> !(forall j :: 0 <= j && j < len(m.order) ==> call(fn, m.order[j], m.data[m.order[j]]) == nil)
+//@   no_panic
+//@   loop#1 invariant -1 <= rangeindex && rangeindex < len(m.order)
+//@   loop#1 invariant forall j :: 0 <= j && j <= rangeindex ==> call(fn, m.order[j], m.data[m.order[j]]) == nil
+//@   loop#1 decreases len(m.order) - rangeindex
+
+//@ func (*Constraints).EachSafe
+//@   property C19
+//@   requires wfConstraints(m)
+//@   callback fn pure
+//@   no_panic
+//@   loop#1 invariant -1 <= rangeindex && rangeindex < len(m.order)
+//@   loop#1 decreases len(m.order) - rangeindex
+
+//@ func (*Constraints).Map
+//@   property C19
+//@   requires wfConstraints(m)
+//@   callback fn pure
+//@   modifies mapof(m.data)
+//@   ensures wfConstraints(m)
+//@   ensures m.order == old(m.order) && elems(m.order) == old(elems(m.order)) && m.data == old(m.data)
+//@   ensures forall k constraint.Type :: (k in m.data) == old(k in m.data)
+//@   ensures result == nil ==> (forall k constraint.Type :: (k in m.data) ==> m.data[k] == call(fn, k, old(m.data[k])))
+//@   ensures forall k constraint.Type :: (k in m.data) ==> (m.data[k] == old(m.data[k]) || m.data[k] == call(fn, k, old(m.data[k])))
+//@   no_panic
+//@   loop#1 invariant wfConstraints(m) && -1 <= rangeindex && rangeindex < len(m.order)
+//@   loop#1 invariant m.order == old(m.order) && elems(m.order) == old(elems(m.order)) && m.data == old(m.data) && m.$pos == old(m.$pos)
+//@   loop#1 invariant forall k constraint.Type :: (k in m.data) == old(k in m.data)
+//@   loop#1 invariant forall k constraint.Type :: (k in m.data) && m.$pos[k] <= rangeindex ==> m.data[k] == call(fn, k, old(m.data[k]))
+//@   loop#1 invariant forall k constraint.Type :: (k in m.data) && m.$pos[k] > rangeindex ==> m.data[k] == old(m.data[k])
+//@   loop#1 decreases len(m.order) - rangeindex
